@@ -15,6 +15,7 @@ import PyGqlModel.Lemmas.ParseTSE
 import PyGqlModel.Lemmas.ParseTSC
 import PyGqlModel.Lemmas.ParseTSC6
 import PyGqlModel.Lemmas.ParseErase3
+import PyGqlModel.ParseText
 namespace PyGql.Props.C01
 open PyGql PyGql.Ast PyGql.Parse PyGql.Spec
 
@@ -150,24 +151,6 @@ def ParseCompleteDocument : Prop :=
   ∀ (fl : Flags) (toks : List Tok) (d : Document), wfDocument fl d = true → Matches fl [documentV d] toks →
     parseDocument fl toks = .ok d
 
-/-- `parse_sound` for values and types (kept from phase 1).  SUPERSEDED for documents by `parse_sound_document`
-    (below), which proves `ParseSoundDocument` in full; nothing is missing on the soundness side any more. -/
-theorem parse_sound_partial (fl : Flags) (toks : List Tok) :
-    (∀ v, parseValue fl toks = .ok v → wfValue false v = true ∧ Matches fl [p .sof, valueV v, p .eof] toks) ∧
-    (∀ t, parseType fl toks = .ok t → wfType t = true ∧ Matches fl [p .sof, typeV t, p .eof] toks) :=
-  ⟨parseValue_sound fl toks, parseType_sound fl toks⟩
-
-/-- `parse_complete` for values and types (every flag combination).  For documents: proved in full for the executable
-    language (`parse_complete_executable`, `allow_type_system=False`) and reduced to the type-system layer in
-    general (`parseDocument_complete_of`: given `TSComplete`, i.e. exact completeness of `parse_type_system_definition`
-    / `parse_type_system_extension` under the follow condition `FollowDef`).  MISSING for `ParseCompleteDocument`:
-    `TSComplete` itself (the completeness direction of the 8 type-system definitions and 7 extensions; their
-    soundness direction is proved: `tsSound`). -/
-theorem parse_complete_partial (fl : Flags) (toks : List Tok) :
-    (∀ v, wfValue false v = true → Matches fl [p .sof, valueV v, p .eof] toks → parseValue fl toks = .ok v) ∧
-    (∀ t, wfType t = true → Matches fl [p .sof, typeV t, p .eof] toks → parseType fl toks = .ok t) :=
-  ⟨parseValue_complete fl toks, parseType_complete fl toks⟩
-
 /-! ## documents: reduction to the type-system layer, and the executable language in full -/
 
 /-- soundness of `parse`, given soundness of the two type-system dispatchers when they are reachable -/
@@ -262,6 +245,57 @@ theorem parse_complete_up_to_positions (fl : Flags) (toks : List Tok) (t : Docum
     rw [hp] at c
     refine ⟨t', rfl, ?_⟩
     simpa [Except.map] using c
+
+/-! ## text level: lexer ∘ parser -/
+
+/-- `parse(text)` succeeds exactly when the lexer produces a token list that derives from the grammar.
+    `_partial`: this composes the two models; it says nothing yet about WHICH texts `lexAll` tokenises how — that is
+    LANG-1's `lex_sound` / `lex_render` (ignored characters insignificant, lexical grammar), not yet in /verif.  With
+    them, "text accepted ⇔ text derives from the June-2018 grammar" follows by substituting for `lexAll s = .ok toks`. -/
+theorem parse_text_accepts_iff_partial (fl : Flags) (s : Text) :
+    (∃ d, parseText fl s = some d) ↔
+      ∃ toks d, Lex.lexAll s = .ok toks ∧ wfDocument fl d = true ∧ Matches fl [documentV d] toks := by
+  unfold parseText
+  cases hl : Lex.lexAll s with
+  | error e =>
+    constructor
+    · rintro ⟨d, h⟩; cases h
+    · rintro ⟨toks, d, h, _⟩; cases h
+  | ok toks =>
+    dsimp only
+    constructor
+    · rintro ⟨d, h⟩
+      cases hp : parseDocument fl toks with
+      | error e => rw [hp] at h; cases h
+      | ok d' => exact ⟨toks, d', rfl, parse_sound_document fl toks d' hp⟩
+    · rintro ⟨toks', d, e, w, h⟩
+      cases e
+      exact ⟨d, by rw [parse_complete_document fl toks d w h]; rfl⟩
+
+/-- and the tree returned for an accepted text is the (unique) well-formed document matched by its tokens -/
+theorem parse_text_result_partial (fl : Flags) (s : Text) (d : Document) :
+    parseText fl s = some d ↔
+      ∃ toks, Lex.lexAll s = .ok toks ∧ wfDocument fl d = true ∧ Matches fl [documentV d] toks := by
+  unfold parseText
+  cases hl : Lex.lexAll s with
+  | error e =>
+    constructor
+    · intro h; cases h
+    · rintro ⟨toks, h, _⟩; cases h
+  | ok toks =>
+    dsimp only
+    constructor
+    · intro h
+      cases hp : parseDocument fl toks with
+      | error e => rw [hp] at h; cases h
+      | ok d' =>
+        rw [hp] at h
+        have : d' = d := by simpa [Except.toOption] using h
+        subst this
+        exact ⟨toks, rfl, parse_sound_document fl toks d' hp⟩
+    · rintro ⟨toks', e, w, h⟩
+      cases e
+      rw [parse_complete_document fl toks d w h]; rfl
 
 /-! ## the tables re-extracted from `parser.py` are the grammar's
 
